@@ -51,18 +51,19 @@ pub struct JobCfg {
     pub part: usize,
     pub parts: usize,
     /// second level: the tape already carries this write (a first deviation that changed the JSON
-    /// shape) and has this length; the job enumerates the second write behind it
-    pub first: Option<(usize, Vec<u8>, usize)>,
+    /// shape) and has this length; the job enumerates the second write at the positions behind it
+    /// up to (excluding) the last number: (position, bytes, tape length, end of second positions)
+    pub first: Option<(usize, Vec<u8>, usize, usize)>,
 }
 
 impl JobCfg {
     pub fn to_serde(&self) -> Value {
-        json!({"thorough": self.thorough, "part": self.part, "parts": self.parts, "first": self.first.as_ref().map(|(p, w, n)| json!([p, hex::encode(w), n]))})
+        json!({"thorough": self.thorough, "part": self.part, "parts": self.parts, "first": self.first.as_ref().map(|(p, w, n, e)| json!([p, hex::encode(w), n, e]))})
     }
     pub fn from_serde(v: &Value) -> Option<JobCfg> {
         let first = match &v["first"] {
             Value::Null => None,
-            f => Some((f[0].as_u64()? as usize, hex::decode(f[1].as_str()?).ok()?, f[2].as_u64()? as usize)),
+            f => Some((f[0].as_u64()? as usize, hex::decode(f[1].as_str()?).ok()?, f[2].as_u64()? as usize, f[3].as_u64()? as usize)),
         };
         Some(JobCfg { thorough: v["thorough"].as_bool()?, part: v["part"].as_u64()? as usize, parts: v["parts"].as_u64()? as usize, first })
     }
@@ -196,8 +197,14 @@ fn used_with<T>(g: Gen<T>, writes: &[(usize, Vec<u8>)]) -> usize {
     .unwrap_or(0)
 }
 
-pub fn second_level_len<T>(g: Gen<T>, pos: usize, w: &[u8]) -> usize {
-    (used_with(g, &[(pos, w.to_vec())]) + TAPE_SLACK).min(TAPE_PROBE_LEN)
+/// (tape length, end of the second-write positions) behind a first write: the tape is re-sized
+/// to what the builder now consumes; the second write visits the bytes right behind the first
+/// one that the newly created structure consumes (additional consumption + slack)
+pub fn second_level_extent<T>(g: Gen<T>, pos: usize, w: &[u8]) -> (usize, usize) {
+    let used = used_with(g, &[(pos, w.to_vec())]);
+    let grown = used.saturating_sub(tape_used(g));
+    let len = (used + TAPE_SLACK).min(TAPE_PROBE_LEN);
+    (len, (pos + w.len() + grown + TAPE_SLACK).min(len))
 }
 
 pub fn enumerate<T: Subject>(spec: &Spec<T>, cfg: &JobCfg) -> Enumerated<T> {
@@ -209,9 +216,9 @@ pub fn enumerate<T: Subject>(spec: &Spec<T>, cfg: &JobCfg) -> Enumerated<T> {
     if let Some(h) = base_hash {
         seen.insert(h);
     }
-    let (n, fixed, from): (usize, Vec<(usize, Vec<u8>)>, usize) = match &cfg.first {
-        None => (n0, vec![], 0),
-        Some((p, w, n)) => (*n, vec![(*p, w.clone())], p + w.len()),
+    let (n, fixed, from, to): (usize, Vec<(usize, Vec<u8>)>, usize, usize) = match &cfg.first {
+        None => (n0, vec![], 0, n0),
+        Some((p, w, n, e)) => (*n, vec![(*p, w.clone())], p + w.len(), *e),
     };
     match &cfg.first {
         None => {
@@ -247,7 +254,7 @@ pub fn enumerate<T: Subject>(spec: &Spec<T>, cfg: &JobCfg) -> Enumerated<T> {
     }
     // quick tier: integer windows only for builders consuming little tape (first level only)
     let windows = cfg.thorough || n0 <= QUICK_WINDOW_MAX_TAPE + TAPE_SLACK;
-    let positions: Vec<usize> = (from..n).filter(|p| p % cfg.parts == cfg.part).collect();
+    let positions: Vec<usize> = (from..to).filter(|p| p % cfg.parts == cfg.part).collect();
     let per_pos: Vec<Vec<(Src, Option<(T, u64)>)>> = positions
         .par_iter()
         .map(|&pos| {
@@ -310,8 +317,8 @@ pub struct Acc {
     pub sample: Option<Value>,
     pub machinery: Vec<String>,
     /// first level only: the one-write tapes that produced a new JSON shape (position, bytes,
-    /// tape length for the second level)
-    pub firsts: Vec<(usize, Vec<u8>, usize)>,
+    /// tape length and end of the second-write positions for the second level)
+    pub firsts: Vec<(usize, Vec<u8>, usize, usize)>,
 }
 
 impl Acc {
@@ -340,7 +347,7 @@ impl Acc {
             "int_ranges": self.int_ranges,
             "sample": self.sample,
             "machinery": self.machinery,
-            "firsts": self.firsts.iter().map(|(p, w, n)| json!([p, hex::encode(w), n])).collect::<Vec<_>>(),
+            "firsts": self.firsts.iter().map(|(p, w, n, e)| json!([p, hex::encode(w), n, e])).collect::<Vec<_>>(),
         })
     }
     pub fn from_serde(v: &Value) -> Option<Acc> {
@@ -359,7 +366,7 @@ impl Acc {
             int_ranges: map(&v["int_ranges"]),
             sample: if v["sample"].is_null() { None } else { Some(v["sample"].clone()) },
             machinery: v["machinery"].as_array()?.iter().filter_map(|s| s.as_str().map(str::to_string)).collect(),
-            firsts: v["firsts"].as_array()?.iter().filter_map(|f| Some((f[0].as_u64()? as usize, hex::decode(f[1].as_str()?).ok()?, f[2].as_u64()? as usize))).collect(),
+            firsts: v["firsts"].as_array()?.iter().filter_map(|f| Some((f[0].as_u64()? as usize, hex::decode(f[1].as_str()?).ok()?, f[2].as_u64()? as usize, f[3].as_u64()? as usize))).collect(),
         })
     }
 }
@@ -757,13 +764,19 @@ pub fn run_job<T: Subject>(spec: &Spec<T>, cfg: &JobCfg) -> Acc {
             acc.distinct.push(fxhash(&(spec.name, h)));
             // first pass without the text round trip; bases get it below
             let Some(j) = check_value(py, spec, src, v, false, &mut acc, None) else { continue };
+            if cfg.first.is_some() {
+                // second level: round trips only (every nested struct is a registered type of
+                // its own and gets its corruptions there)
+                continue;
+            }
             let new_shape = shapes.insert(fxhash(&jtree::shape(&j)));
             if !(new_shape || matches!(src, Src::Letter(_))) {
                 continue;
             }
-            if let (None, true, Src::Tape { writes, .. }) = (&cfg.first, cfg.thorough, src) {
+            if let (true, Src::Tape { writes, .. }) = (cfg.thorough, src) {
                 if let [(p, w)] = writes.as_slice() {
-                    acc.firsts.push((*p, w.clone(), second_level_len(spec.build, *p, w)));
+                    let (len, end) = second_level_extent(spec.build, *p, w);
+                    acc.firsts.push((*p, w.clone(), len, end));
                 }
             }
             acc.bases += 1;
